@@ -143,6 +143,16 @@ CHECKS["C10"] = dict(
     note="Trusted: TLC, the harness's chain printer. Bounds: depth 1 full + depth 2/3 reduced shapes (quick); depth 1-3 (thorough, ~1e5 chains).",
     technique="TLA+ executable specification enumerated by TLC + exhaustive replay of every template of every chain", ref="DESIGN.md §3 C10")
 
+CHECKS["C11"] = dict(
+    text="PongoLoader.tla defines name resolution (rooted: from the loader's root; otherwise: the referring template's directory), first-"
+         "loader-wins lookup, what compiling fetches (static references, transitively) and what executing fetches (computed includes), "
+         "missing-name outcomes with and without if_exists, extends, import and both ssi modes, and the exact set of (loader, path) "
+         "requests. TLC enumerates virtual trees x loader lists x references; each vector is replayed with two recording loaders whose "
+         "virtual root is a real directory holding canary files no loader serves: output, error and the set of requested paths must equal "
+         "the specification's and no canary text may appear.",
+    note="Trusted: TLC, the harness's recording loaders (their Abs implements the name rules). Reference graphs of depth <=2 with <=3 edges.",
+    technique="TLA+ executable specification enumerated by TLC + exhaustive replay with recording loaders and file-system canaries", ref="DESIGN.md §3 C11")
+
 PENDING = {}
 
 def main():
